@@ -56,6 +56,7 @@ type AttachObs struct {
 	Fin     []int               `json:"fin"`     // handlers whose EstablishConnection call has returned
 	Wills   map[string]int      `json:"wills"`   // handler -> number of publications of its will message
 	Closer  string              `json:"closer"`  // idle | called | returned
+	Passed  bool                `json:"passed"`  // the closer has come out of Listeners.CloseAll (ClientsWg.Wait is behind it)
 }
 
 type AttachLine struct {
@@ -96,6 +97,7 @@ type attachRun struct {
 	current   atomic.Int32 // the process allowed to run (0 closer, -1 nobody)
 	closerRel chan struct{}
 	closerAt  string
+	passed    atomic.Bool
 	closeRet  chan struct{}
 	closeCli  chan struct{}
 	closer    string
@@ -186,6 +188,9 @@ func (r *attachRun) sched(point string, cl *mqtt.Client) {
 	if cl == nil {
 		if point == "close.begin" || point == "close.listenersClosed" {
 			r.closerAt = point
+			if point == "close.listenersClosed" {
+				r.passed.Store(true)
+			}
 			r.closerArr <- point
 			<-r.closerRel
 		}
@@ -367,6 +372,7 @@ func (r *attachRun) observe() *AttachObs {
 		}
 	}
 	o.Closer = r.closer
+	o.Passed = r.passed.Load()
 	return o
 }
 
